@@ -11,5 +11,5 @@ NOT_DECIDED = '__context__/__cause__ chaining inside Exceptions.c and the run-ti
 
 
 def run(ctx):
-    from ..rules import exc
-    return gen.label_rules(ctx) + [gen2.rule_G2(ctx), gen2.rule_G1(ctx)] + exc.rules(ctx)
+    from ..rules import exc, sC22
+    return gen.label_rules(ctx) + [gen2.rule_G2(ctx), gen2.rule_G1(ctx)] + exc.rules(ctx) + [sC22.rule_cause(ctx)]
